@@ -37,24 +37,29 @@ from common import run_driver, widths, DEVNAMES, device_classes  # noqa: E402
 import asmcommon as ac  # noqa: E402
 
 ID = 'C08'
-LEAN_MODULES = ['Py65.Props.C08']
-NAMESPACES = ['Py65.Props.C08']
+LEAN_MODULES = ['Py65.Props.C08'] + ac.ASM_GEN_MODULES + ['Py65.Props.C08g']
+NAMESPACES = ['Py65.Props.C08', 'Py65.Proofs.AsmGenEq', 'Py65.Props.C08g']
 LEVEL = 'proof'
 USES_GEN = True
 EXPECTED_THEOREMS = ['Py65.Props.C08.roundtrip', 'Py65.Props.C08.roundtrip_exact', 'Py65.Props.C08.spec_decode_encode',
                      'Py65.Props.C08.roundtrip_past_top', 'Py65.Props.C08.shown_label', 'Py65.Props.C08.shown_hex',
-                     'Py65.Props.C08.noLabels_good']
+                     'Py65.Props.C08.noLabels_good'] + ac.ASM_GEN_THEOREMS + [
+    'Py65.Props.C08g.roundtrip', 'Py65.Props.C08g.roundtrip_exact', 'Py65.Props.C08g.roundtrip_past_top']
+pre_build = ac.pre_build_asm          # tie 1: regenerate lean/Py65/Gen/AsmGen.lean from the current source
 RULE = ('devices x opcode bytes 0..255 enumerated; operand cells and addresses from boundary classes then random; label '
         'tables of 0-6 identifier-like names aimed at operand / word / branch target / neighbours; branches: addresses x '
         'displacements (quick: 3000 x 16, thorough: all 65536 x 256 on the 8-bit devices).  distinct = distinct (device, '
         'pc, cells, labels); nontrivial = declared opcode (a text with a mnemonic is produced and re-assembled)')
-TRUSTED = [
-    'hand models Py65.Model.Disasm and Py65.Model.Asm (tied individually by C09 / C07 and here in composition, by '
-    'sampled correspondence); Py65.Model.AddrParser for reading the operand back (C15)',
+TRUSTED = ac.ASM_GEN_TRUSTED + [
+    'hand model Py65.Model.Disasm (tied by C09 and here in composition, by sampled correspondence) and hand model '
+    'Py65.Model.Asm (proved equal to the regenerated Py65.Gen.AsmGen, and tied by C07 / here by sampled '
+    'correspondence); Py65.Model.AddrParser for reading the operand back (C15)',
     'Spec.Asm (decode / encode on the documented tables of Spec/Isa.lean) and its Python transcription in '
     'harness/asmcommon.py',
 ]
 ASSUMPTIONS = [
+    'the assembler side of Props/C08g.lean is the function GENERATED from the current py65/assembler.py (library '
+    'behaviour modelled, see trusted_base); the disassembler side is the hand model',
     '"located at any address" is read as: the instruction lies inside the address space (pc + length <= 2^ADDR_WIDTH); '
     'C07 requires code running past the top of memory to be refused, and that is what is checked for straddling '
     'instructions (theorem roundtrip_past_top)',
